@@ -4,6 +4,7 @@ import (
 	"context"
 	"fmt"
 	"strconv"
+	"strings"
 	"sync"
 	"sync/atomic"
 	"testing"
@@ -27,6 +28,7 @@ type c02Plan struct {
 	Putters    [][]c02Put `json:"putters"`
 	WPause     []int      `json:"writer_pause_us"` // cycled
 	RPause     []int      `json:"reader_pause_us"`
+	AutoFlush  []int      `json:"auto_flush_after"` // the writer's buffer flushes by itself after this many commands (cycled)
 }
 
 type c02Event struct {
@@ -69,27 +71,47 @@ func c02run(t *testing.T, plan c02Plan) (res bubble.Result, events []*c02Event, 
 		} else {
 			q = newFlowBuffer(plan.Factor)
 		}
-		written := make(chan string, len(events)+4)
+		ntok := 8
+		for _, ps := range plan.Putters {
+			for _, p := range ps {
+				ntok += max(1, p.Multi)
+			}
+		}
+		written := make(chan string, ntok)
 		var wg, loops sync.WaitGroup
 		var parked atomic.Int32
-		// writer: mirrors pipe._backgroundWrite
+		// writer: mirrors pipe._backgroundWrite, including its write buffer: what is dequeued is only
+		// "on the wire" (visible to the reader as replies) once the buffer is flushed, which happens when
+		// the queue has nothing more to write, or by itself when the buffer fills up (AutoFlush), possibly
+		// in the middle of a batch
 		loops.Add(2)
 		go func() {
 			defer loops.Done()
+			var buf []string
+			auto, autoIdx := 0, 0
+			flush := func() {
+				for _, tk := range buf {
+					written <- tk
+				}
+				buf = buf[:0]
+			}
 			for i := 0; ; i++ {
-				if len(plan.WPause) > 0 {
+				if len(plan.WPause) > 0 && len(buf) == 0 {
 					time.Sleep(time.Duration(plan.WPause[i%len(plan.WPause)]) * time.Microsecond)
 				}
 				one, multi, ch := q.NextWriteCmd()
 				if ch == nil {
+					flush()
 					parked.Store(1)
 					one, multi, ch = q.WaitForWrite()
 					parked.Store(0)
 				}
 				var ids string
+				n := 1
 				if multi == nil {
 					ids = c02ID(one)
 				} else {
+					n = len(multi)
 					for _, m := range multi {
 						ids += c02ID(m) + ","
 					}
@@ -97,17 +119,30 @@ func c02run(t *testing.T, plan c02Plan) (res bubble.Result, events []*c02Event, 
 				mu.Lock()
 				writerOrder = append(writerOrder, ids)
 				mu.Unlock()
-				written <- ids
+				for k := 0; k < n; k++ {
+					buf = append(buf, fmt.Sprintf("%s|%d|%d", ids, k, n))
+					auto++
+					if len(plan.AutoFlush) > 0 && auto >= plan.AutoFlush[autoIdx%len(plan.AutoFlush)] {
+						auto = 0
+						autoIdx++
+						flush()
+					}
+				}
 				if ids == "poison" {
+					flush()
 					return
 				}
 			}
 		}()
-		// reader: mirrors pipe._backgroundRead (a reply only exists for a written command)
+		// reader: mirrors pipe._backgroundRead (a reply only exists for a flushed command; the slot is
+		// taken at the first reply of a batch and held until its last reply)
 		go func() {
 			defer loops.Done()
 			for i := 0; ; i++ {
-				want := <-written
+				tk := <-written
+				parts := strings.Split(tk, "|")
+				want := parts[0]
+				n, _ := strconv.Atoi(parts[2])
 				if len(plan.RPause) > 0 {
 					time.Sleep(time.Duration(plan.RPause[i%len(plan.RPause)]) * time.Microsecond)
 				}
@@ -129,6 +164,9 @@ func c02run(t *testing.T, plan c02Plan) (res bubble.Result, events []*c02Event, 
 					q.FinishResult()
 					_ = want
 					return // out of step: reported by the oracle from readerOrder
+				}
+				for k := 1; k < n; k++ {
+					<-written // the remaining replies of the batch
 				}
 				for j := range resps {
 					resps[j] = NewResult(strmsg('+', ids), nil)
@@ -224,10 +262,43 @@ func TestVerif_C02_Queue(t *testing.T) {
 		}
 		plan.WPause = rapid.SliceOfN(rapid.IntRange(0, 8), 0, 4).Draw(rt, "wpause")
 		plan.RPause = rapid.SliceOfN(rapid.IntRange(0, 8), 0, 4).Draw(rt, "rpause")
+		if rapid.Bool().Draw(rt, "autoFlush") {
+			plan.AutoFlush = rapid.SliceOfN(rapid.IntRange(1, 4), 1, 3).Draw(rt, "autoFlushAfter")
+		}
+		if rapid.IntRange(0, 3).Draw(rt, "fullRingPartialFlush") == 0 {
+			// directed shape: a tiny ring kept full while a batch is flushed only in part
+			plan.Factor = 1
+			plan.AutoFlush = rapid.SampledFrom([][]int{{2, 3}, {1, 3}, {2, 4}, {1, 2, 3}, {2, 5}}).Draw(rt, "autoFlushShape")
+			plan.WPause, plan.RPause = nil, nil
+			for i := range plan.Putters {
+				for k := range plan.Putters[i] {
+					plan.Putters[i][k].At = rapid.IntRange(0, 1).Draw(rt, "atNow")
+					plan.Putters[i][k].Gap = 0
+				}
+			}
+			plan.Putters[0][0].Multi = rapid.IntRange(2, 3).Draw(rt, "bigBatch")
+		}
 		saveLastCase("c02", []byte(fmt.Sprintf("%+v", plan)))
 
 		res, events, wo, ro, after, writerParked, maxInflight := c02run(t, plan)
 		if res.Frozen {
+			// a goroutine blocked on the slot mutex is invisible to the bubble's deadlock detector; when nothing
+			// in the bubble is waiting for virtual time (no sleeper) nobody can ever release it: a real deadlock
+			// The writer is blocked on a slot mutex inside NextWriteCmd while the reader, which holds that slot,
+			// waits for replies that only the writer can put on the wire: nobody can release anybody.
+			saveLastCase("c02-frozen", []byte(res.Goroutines))
+			writerStuck, readerWaits := false, false
+			for _, g := range strings.Split(res.Goroutines, "\n\n") {
+				if strings.Contains(g, "(*ring).NextWriteCmd") && strings.Contains(g, "Mutex") {
+					writerStuck = true
+				}
+				if strings.Contains(g, "c02run.func1.2") && strings.Contains(g, "[chan receive") {
+					readerWaits = true
+				}
+			}
+			if writerStuck && readerWaits {
+				c.Fail(rt, "C02.no-deadlock", "the writer waits in NextWriteCmd for the slot the reader holds, with the reader's replies still unflushed:\n"+res.Goroutines, plan)
+			}
 			c.Inconclusive("virtual-clock-freeze")
 			return
 		}
